@@ -177,4 +177,8 @@ example : setFactor 0 (10 ^ 20) = .ok (10 ^ 20, 0) ∧ setFactor 0 (10 ^ 20 + 1)
 example : claim ⟨true, 5, [2 ^ 64 - 1]⟩ 5 = some (⟨true, 0, [0]⟩, 1, [2 ^ 64 - 1]) := by decide
 example : reserveOne 1 3 10 = some 3 := by decide
 
+-- added by the hygiene audit: the failing side of `claim_fails_iff`, and `reserve_one_spec` / `factor_le_unit` hypotheses
+example : claim ⟨true, 5, [7, 9]⟩ 6 = none ∧ (∀ B ∈ ([7, 9] : List Nat), B < 2 ^ 64) := by decide
+example : reserveOne 2 3 10 = some 6 ∧ (10 : Nat) ≠ 0 := by decide
+
 end Gmx.C37
